@@ -112,6 +112,7 @@ type Object struct {
 	Cap    int
 	Buf    []Value
 	Closed bool
+	ItemVC [][]int32 // race mode: clock of the sender of each buffered item
 	// harness-owned (exempt from the race monitor)
 	Harness bool
 	Site    string // allocation site (for reports)
